@@ -45,6 +45,8 @@ def run(ctx, col, tier):
                   stmt="pure")
         recursion_free(ctx, col, "R-CG", [q], f"recursion-free from {q.split('.')[-1]}")
 
+    from ..rules import rtolpos
+    rtolpos.run(ctx, col, ("swcgeom.core.tree_utils.cat_tree", "swcgeom.core.tree_utils.redirect_tree"))
     col.guard(anchored, ctx, col)
     from .c05 import tree_gather_keys
     col.guard(tree_gather_keys, ctx, col, "R-CAT")
